@@ -7,6 +7,7 @@ import (
 )
 
 func init() {
+	verifRegister("verifC03DeferredPlain", verifC03DeferredPlain)
 	verifRegister("verifC03Controlling", verifC03Controlling)
 	verifRegister("verifC03Controlled", verifC03Controlled)
 	verifRegister("verifC03Lite", verifC03Lite)
@@ -50,7 +51,7 @@ func verifPairIndex(s *verifStep, local, remote Candidate) int {
 }
 
 func verifC03Controlling() {
-	verifC03Inbound(verifStepCfg{nLocal: 2, nRemote: 1, renomination: true, classes: verifReqAndSuccess, onlyAuth: true, role: 1, maxPend: 1 + verifTier(), smallPrio: true})
+	verifC03Inbound(verifStepCfg{nLocal: 2, nRemote: 1, renomination: true, classes: verifReqAndSuccess, onlyAuth: true, role: 1, maxPend: 1 + verifTier(), smallPrio: true, nominating: true})
 }
 
 func verifC03Controlled() {
@@ -113,6 +114,17 @@ func verifC03Inbound(cfg verifStepCfg) {
 		}
 	}
 
+	// a nomination request that is deferred is recorded as a renomination exactly when it carried a value
+	if !s.controlling && s.class == stun.ClassRequest && isKnown {
+		if idx := verifPairIndex(s, local, known); idx >= 0 && idx < len(s.before.pairs) {
+			bp, ap := s.before.pairs[idx], s.after.pairs[idx]
+			if ap.nomOnSucc && !bp.nomOnSucc {
+				verifReach("nomination-deferred")
+				verifAssert(ap.renomOnSucc == (s.nomKind == 1), "deferred-nomination-is-marked-renomination-iff-it-carried-a-value")
+			}
+		}
+	}
+
 	// (c)/(d)/(f) when may the selection change
 	if s.after.selected != s.before.selected {
 		verifReach("selection-changed")
@@ -136,6 +148,10 @@ func verifC03Inbound(cfg verifStepCfg) {
 			verifAssert(idx >= 0 && idx < len(s.before.pairs), "controlled:pair-existed")
 			if idx >= 0 && idx < len(s.before.pairs) {
 				verifAssert(s.before.pairs[idx].nomOnSucc, "controlled:response-selects-only-a-pair-nominated-earlier")
+				// a deferred PLAIN nomination obeys the priority rule
+				if s.before.selected != nil && a.needsToCheckPriorityOnNominated() && !s.before.pairs[idx].renomOnSucc {
+					verifAssert(sel.priority() >= s.before.selected.priority(), "deferred-plain-nomination-never-lowers-the-selected-priority")
+				}
 			}
 			ok, _ := s.matchingPending()
 			verifAssert(ok, "controlled:selection-only-on-a-matched-response")
@@ -228,5 +244,50 @@ func verifC03Tick() {
 			sentIdx++
 		}
 	}
+	verifReach("done")
+}
+
+// Two steps on a controlled full agent that has accepted a renomination before:
+// a PLAIN USE-CANDIDATE on a not-yet-valid lower-priority pair, then that
+// pair's matched response: the selection must stay on the higher-priority pair.
+func verifC03DeferredPlain() {
+	w := verifNewWorld(false, false, 2, 1)
+	a := w.a
+	a.enableRenomination = true
+	w.pairAll()
+	for _, l := range w.locals {
+		l.priorityOverride = 1 + uint32(verifU8())
+	}
+	first, second := a.checklist[0], a.checklist[1]
+	first.state, first.nominated = CandidatePairStateSucceeded, true
+	a.selectedPair.Store(first)
+	a.connectionState = ConnectionStateConnected
+	if verifChoice(2) == 1 {
+		v := verifU32() & 0xFFFFFF
+		a.selector.(*controlledSelector).lastNomination = &v // an earlier renomination was accepted
+		verifReach("after-renomination")
+	}
+	second.state = CandidatePairState(verifInt(1, 2))
+	verifAssume(second.priority() < first.priority())
+	req, err := stun.Build(stun.BindingRequest, stun.NewTransactionIDSetter(verifTxID()), stun.NewUsername(verifExpectedUsername), UseCandidate(),
+		AttrControlling(1), PriorityAttr(5), stun.NewShortTermIntegrity(verifLocalPwd), stun.Fingerprint)
+	verifAssert(err == nil, "build")
+	src := w.remotes[0].addrPort()
+	a.handleInbound(req, w.locals[1], src)
+	var check *stun.Message
+	for i := range w.conns[1].sent {
+		if m := verifParseSent(w.conns[1], i); m != nil && m.Type.Class == stun.ClassRequest {
+			check = m
+		}
+	}
+	verifAssert(check != nil, "triggered-check-sent")
+	if check == nil {
+		return
+	}
+	resp, err := stun.Build(stun.BindingSuccess, stun.NewTransactionIDSetter(check.TransactionID), stun.NewShortTermIntegrity(verifRemotePwd), stun.Fingerprint)
+	verifAssert(err == nil, "build")
+	a.handleInbound(resp, w.locals[1], src)
+	verifAssert(second.state == CandidatePairStateSucceeded, "second-pair-valid")
+	verifAssert(a.getSelectedPair() == first, "plain-USE-CANDIDATE-on-a-lower-priority-pair-never-takes-the-selection(even-deferred)")
 	verifReach("done")
 }
